@@ -12,10 +12,24 @@ T  : the driver `blockexec` builds every block on chain A with the miner's seque
      times with the import executor on fresh state objects (chain cache, fresh trie cache, shuffled warm-up, the independent
      chain B) and imports it into chain B; a second driver process repeats everything.  spec/BlockExec_Mon.tla compares
      the recorded result records (Deterministic, BuilderAccepted, ImportReproduces).
+Miner stage (every tier): spec/BlockExec_Miner.tla is the miner layer of the design model (pool admission, price-and-nonce
+     order, gas pool, snapshot / revert, Pop / Shift on the error classes, receipts only for included transactions); M with
+     the mechanism as coded must hold, with RevertToSnapshot or the receipt rule removed TLC must find a counterexample.
+     The driver `minerexec` runs the REAL miner (miner.NewMiner: newWorkLoop, mainLoop, commitNewWork, commitTransactions,
+     commitTransaction, commit, taskLoop, mine, postSeal) over a stub Backend (real BlockChain + real TxPool), the solo
+     engine behind a wrapper that names the proposer and gates Prepare, and the staking module; programs are pool
+     submissions (generated histories + transactions that fail in the handler, a sender drained by its own earlier
+     transaction, nonce gaps, more gas than the block admits, gas limits near the block gas limit, nearly full blocks);
+     every block the miner wrote is re-executed K+1 times on and imported into the independent chain B.  Extra clause
+     MinerIncludesOnlyExecutable.
 """
+import fcntl
 import json
 import os
 import random
+import re
+import shutil
+import subprocess
 import vlib
 from checks import C07
 
@@ -70,23 +84,23 @@ def merge_second_process(t1, t2, out):
     return used
 
 
-def judge(ctx, behs, opts, name, expect=None, two_processes=True):
+def judge(ctx, behs, opts, name, expect=None, two_processes=True, driver="blockexec"):
     """Chunked so that one monitor run stays below ~25 000 events."""
     per = max(1, 25000 // max(1, (sum(7 * len(b) + 1 for b in behs) // max(1, len(behs)))))
     last = None
     for i in range(0, len(behs), per):
         last = judge1(ctx, behs[i:i + per], opts, name if i == 0 else "%s_%d" % (name, i // per),
-                      expect if i == 0 else None, two_processes)
+                      expect if i == 0 else None, two_processes, driver)
     return last
 
 
-def judge1(ctx, behs, opts, name, expect=None, two_processes=True):
+def judge1(ctx, behs, opts, name, expect=None, two_processes=True, driver="blockexec"):
     if not behs:
         return None
     bpath = ctx.path("behaviours_%s.ndjson" % name)
     vlib.write_ndjson(bpath, behs)
     t1 = ctx.path("trace_%s.ndjson" % name)
-    info = ctx.drive("blockexec", t1, behaviours=bpath, opts=dict(opts, k=3), timeout=2400)
+    info = ctx.drive(driver, t1, behaviours=bpath, opts=dict(opts, k=3), timeout=2400)
     trace = t1
     if two_processes:
         t2 = ctx.path("trace_%s_p2.ndjson" % name)
@@ -103,9 +117,14 @@ def judge1(ctx, behs, opts, name, expect=None, two_processes=True):
     ctx.cov["evaluations"] += sum(len(b) for b in behs)
     ctx.cov["distinct_nontrivial"] += len({json.dumps(b, sort_keys=True) for b in behs if nontrivial(b)})
     result, _ = vlib.monitor(ctx, "BlockExec_Mon", "BlockExec_Mon.cfg", trace, name="Mon_" + name, behaviours=bpath,
-                             replay_meta={"driver": "blockexec", "opts": opts}, timeout=1500)
+                             replay_meta={"driver": driver, "opts": opts}, timeout=1500)
     if info["aborts"]:
         ctx.note("%s: %d behaviours aborted the driver process: %s" % (name, len(info["aborts"]), info["aborts"][:2]))
+        if driver == "minerexec":
+            # the node process exits (logging.Crit) while the real miner assembles a block: no block that could be accepted
+            a = info["aborts"][0]
+            sig = "C06/BuilderAccepted/process_abort"
+            ctx.report(sig, vlib.save_behaviour_replay(ctx, sig, bpath, a["b"], {"driver": driver, "opts": opts}), a)
     if result.get("fired", {}).get("Aborted"):
         ctx.note("%s: %d behaviours aborted (panic / build error) -- see %s" % (name, result["fired"]["Aborted"], trace))
     if expect:
@@ -129,6 +148,122 @@ def add_evidences(h, rnd):
     return h
 
 
+# ---------------------------------------------------------------------------------------------- miner stage
+MINER = dict(Accts='{"u1", "u2"}', MaxSubmit=2, MaxBlocks=2, BlockGas=3, Funds=6, RevertOnFailure="TRUE",
+             ReceiptOnlyOnSuccess="TRUE", GenMode='"none"')
+
+
+def miner_cfg(consts, mode):
+    c = "\n".join("  %s = %s" % kv for kv in consts.items())
+    if mode == "M":
+        return ("SPECIFICATION Spec\nCONSTANTS\n%s\nINVARIANT BuilderAccepted MinerIncludesOnlyExecutable\nVIEW View\n"
+                "CHECK_DEADLOCK FALSE\n" % c)
+    return "INIT Init\nNEXT Next\nCONSTANTS\n%s\nCONSTRAINT Leaf\nCHECK_DEADLOCK FALSE\n" % c
+
+
+def build_miner(ctx):
+    """cmd/minerexec links go-youchain/miner -> p2p -> quic-go, whose init() panics under the installed toolchain: build it
+    with a generated -modfile that points the quic-go replace directive to the patched local copy (harness/third_party)."""
+    os.makedirs(os.path.join(vlib.WORK, "bin"), exist_ok=True)
+    tag = "" if vlib.REPO == "/repo" else "_" + re.sub(r"\W+", "_", vlib.REPO)
+    mf = os.path.join(vlib.WORK, "bin", "go_miner%s.mod" % tag)
+    binp = os.path.join(vlib.WORK, "bin", "vdrive_minerexec" + tag)
+    lock = open(os.path.join(vlib.WORK, "build%s.lock" % tag), "w")
+    fcntl.flock(lock, fcntl.LOCK_EX)
+    try:
+        text = open(os.path.join(vlib.HARNESS, "go.mod")).read()
+        text = re.sub(r"(replace github.com/lucas-clemente/quic-go v0.14.5 => ).*",
+                      r"\g<1>%s" % os.path.join(vlib.HARNESS, "third_party", "quic-go"), text)
+        text = text.replace("=> /repo", "=> " + vlib.REPO)
+        with open(mf, "w") as fh:
+            fh.write(text)
+        shutil.copy(os.path.join(vlib.HARNESS, "go.sum"), mf[:-4] + ".sum")
+        p = subprocess.run(["go", "build", "-tags", "verif", "-modfile=" + mf, "-o", binp, "./cmd/minerexec"], cwd=vlib.HARNESS,
+                           env=vlib.goenv(), stdout=subprocess.PIPE, stderr=subprocess.STDOUT, text=True)
+        if p.returncode != 0:
+            raise vlib.Undecided("miner harness build failed:\n" + p.stdout[-4000:])
+    finally:
+        fcntl.flock(lock, fcntl.LOCK_UN)
+        lock.close()
+    mine = ctx.path("vdrive_minerexec")
+    shutil.copy(binp, mine)
+    ctx.vdrives["minerexec"] = mine
+
+
+def mtx(k, a="u1", b="u2", v="g1", x=1, p=1, g=0):
+    t = dict(k=k, a=a, b=b, v=v, x=x, p=p, f=0, c=0, r=0)
+    if g:
+        t["g"] = g
+    return t
+
+
+def to_pool_program(h, rnd):
+    """A generated history becomes a program of pool submissions: at seeded positions it additionally gets transactions
+    that only a pool-fed miner has to deal with (more gas than the block admits, a sender drained by its own earlier
+    transaction, nonce gaps, gas limits near the block gas limit, nearly full blocks)."""
+    h = json.loads(json.dumps(h))
+    users = ["u1", "u2", "u3"]
+    for i, b in enumerate(h):
+        r = rnd.random()
+        a, c = rnd.sample(users, 2)
+        if r < 0.12:
+            b["txs"] += [mtx("biggas", a=u, p=rnd.choice([1, 2])) for u in users] + [mtx("transfer", a=a, b=c, p=3)]
+        elif r < 0.24:
+            b["txs"] += [mtx("drain", a=a, b=c, p=1), mtx("transfer", a=a, b=c, p=2), mtx("transfer", a=a, b=c, p=1)]
+        elif r < 0.34:
+            b["txs"] += [mtx("gap", a=a, b=c, p=2), mtx("transfer", a=c, b=a, p=1), mtx("transfer", a=a, b=c, p=1)]
+        elif r < 0.44:
+            # a gas limit near the block's needs the whole gas pool: it must be the first transaction the worker takes, so
+            # the block gets nothing else but a follower of the same sender
+            b["txs"] = [mtx("widegas", a=a, b=c, p=1), mtx("transfer", a=a, b=c, p=1)]
+        elif r < 0.52:
+            # a nearly full block: two gas burners, then a transfer whose ample limit just fits
+            b["txs"] += [mtx("biggas", a=a, p=2), mtx("biggas", a=c, p=2), mtx("transfer", a=a, b=c, p=1, g=1900000)]
+    return h
+
+
+def miner_scenario():
+    def blk(cb, *txs):
+        return dict(cb=cb, txs=list(txs))
+    return [blk("g1", mtx("transfer", x=5, p=2), mtx("transfer", a="u2", b="u1", x=7, p=3), mtx("gap", x=3), mtx("transfer", x=4)),
+            blk("g2", mtx("biggas"), mtx("biggas", a="u2", p=2), mtx("biggas", a="u3"), mtx("transfer", a="u3", b="u1", p=3)),
+            blk("g1", mtx("drain", a="u3", b="u1"), mtx("transfer", a="u3", b="u1"), mtx("transfer", a="u3", b="u1"),
+                C07.tx("deposit", a="g2", v="g2", x=15)),
+            blk("g1", mtx("widegas", a="u2", b="u1"), mtx("transfer", a="u2", b="u1")),
+            blk("g1", mtx("biggas", a="u1", p=2), mtx("biggas", a="u2", p=2), mtx("transfer", a="u1", b="u2", g=1900000)),
+            blk("g1", C07.tx("nofunds"), C07.tx("badnonce", x=1), C07.tx("lowgas", x=1)),
+            blk("g2"), blk("g1")]
+
+
+def miner_stage(ctx, sim, rnd):
+    """The REAL miner (miner.NewMiner, worker loops) over a stub backend with the real TxPool assembles and seals the blocks."""
+    quick = ctx.quick
+    mc = dict(MINER, MaxSubmit=2 if quick else 3)
+    m = ctx.tlc_must("BlockExec_Miner", miner_cfg(mc, "M"), name="M_miner", timeout=2400)
+    if m.violated:
+        raise vlib.Undecided("the miner layer of the design model violates %s: specification error" % m.violated)
+    detected = []
+    for sw in ("RevertOnFailure", "ReceiptOnlyOnSuccess"):
+        r = ctx.tlc_must("BlockExec_Miner", miner_cfg(dict(MINER, MaxSubmit=3, **{sw: "FALSE"}), "M"), name="M_miner_no" + sw, timeout=1200)
+        if not r.violated:
+            raise vlib.Undecided("the miner model without %s has no counterexample: the property does not depend on the mechanism" % sw)
+        detected.append("%s=FALSE -> %s" % (sw, r.violated))
+    ctx.cov["miner_model_mutations_detected"] = detected
+    g = ctx.tlc_must("BlockExec_Miner", miner_cfg(dict(MINER, MaxSubmit=2, GenMode='"leaf"'), "G"), name="G1_miner_programs", timeout=2400)
+    progs = [v["h"] for v in g.printed if isinstance(v, dict) and v.get("kind") == "B"]
+    rnd.shuffle(progs)
+    progs = progs[:60 if quick else 1500]
+    behs = [miner_scenario()] + [add_evidences(to_pool_program(s, rnd), rnd) for s in C07.scenarios()[:2]] \
+        + [to_pool_program(h, rnd) for h in sim] + progs
+    ctx.note("miner stage: %d pool programs (%d from the miner model, %d from generated histories)" % (len(behs), len(progs), len(sim)))
+    build_miner(ctx)
+    judge(ctx, behs, OPTS_DEFAULT, "miner", two_processes=False, driver="minerexec")
+    fired = ctx.cov.get("clauses_fired", {})
+    idle = sorted(k for k in ("MinerIncludesOnlyExecutable", "MinerDropped", "MinerRejected") if not fired.get(k))
+    if idle:
+        raise vlib.Undecided("miner stage: monitor counters never fired (vacuous run): %s" % ", ".join(idle))
+
+
 def run(ctx):
     quick = ctx.quick
     rnd = random.Random(ctx.seed)
@@ -143,7 +278,12 @@ def run(ctx):
                         "cache, fresh trie cache, shuffled warm-up, chain B) while the chain head is the parent, and once more "
                         "in a second process",
                         "double-sign evidences are handed to the builder's staking module synchronously (verif hook), signed "
-                        "with the validators' real BLS keys"]
+                        "with the validators' real BLS keys",
+                        "miner stage: real miner.Miner/worker and real core.TxPool; the engine is solo behind a wrapper that names "
+                        "the proposer (solo's GetValMainAddress is the zero address) and parks the worker in Prepare until the "
+                        "driver has filled the pool; the pool is brought up to the new head with a synchronous reset request "
+                        "(verif hook) in addition to its own asynchronous one; re-executions run on chain B only (chain A's "
+                        "head is already the block when the miner hands it out)"]
     # ---------------------------------------------------------------- M
     mc = dict(BE, MaxBlocks=3 if quick else 4)
     m = ctx.tlc_must("BlockExec", cfg(mc, "M"), name="M_repaired", timeout=2400, coverage=not quick)
@@ -186,6 +326,7 @@ def run(ctx):
     for i, (f, bs, o) in enumerate(wit):
         if o:
             judge(ctx, bs, o, "wit%d" % i, two_processes=False)
+    miner_stage(ctx, [v["h"] for v in g2.printed if isinstance(v, dict) and v.get("kind") == "B"][:12 if quick else 200], rnd)
     fired = ctx.cov.get("clauses_fired", {})
     idle = sorted(k for k in ("Deterministic", "BuilderAccepted", "ImportReproduces", "PeriodEnds", "Slashed") if not fired.get(k))
     if idle:
@@ -222,4 +363,7 @@ def selftest(ctx, trace):
 def replay(ctx, path):
     data = json.load(open(path))
     opts = (data.get("meta") or {}).get("opts") or {}
-    judge(ctx, data["behaviours"], opts, "replay", two_processes=False)
+    driver = (data.get("meta") or {}).get("driver") or "blockexec"
+    if driver == "minerexec":
+        build_miner(ctx)
+    judge(ctx, data["behaviours"], opts, "replay", two_processes=False, driver=driver)
